@@ -612,10 +612,15 @@ def minimize_lbfgsb(
                 G,
                 maxcor,
                 mats,
-                is_force_update=False,
+                # the stored gradients may have been rewritten by update_fun_def: the
+                # matrices must then be rebuilt even if the new pair is rejected
+                is_force_update=update_fun_def is not None and len(X) > 1,
                 eps=eps_SY,
                 is_check_factorization=is_check_factorization,
             )
+            if update_fun_def is not None and len(X) == 1:
+                # no pair survived the rewrite: back to the initial matrices
+                mats = LBFGSB_MATRICES(n)
 
             # callback is a user defined mechanism to stop optimization
             # if callback returns True, then it stops.
